@@ -207,7 +207,9 @@ def mutate_once(doc, rng, two_comps=None):
     path = rng.choice(paths)
     parent = get_at(d, path[:-1])
     key = path[-1]
-    op = rng.choice(["replace-scalar", "replace-container", "replace-ref", "replace-ref", "contradiction", "contradiction", "delete", "duplicate", "rename-key", "mutual-ref", "swap-subtree"])
+    op = rng.choice(["replace-scalar", "replace-container", "replace-ref", "replace-ref", "contradiction", "contradiction", "delete", "duplicate", "rename-key", "mutual-ref", "swap-subtree", "collide"])
+    if op == "collide":
+        return collide_mutation(d, rng)
     depth = "d%d" % min(len(path), 6)
     if op == "replace-scalar":
         v = rng.choice(SCALAR_JUNK)
@@ -367,3 +369,107 @@ def non_openapi_docs(rng, n):
             d["components"] = random_json_value(rng, 3)
         out.append(("near-miss", d))
     return out
+
+
+# ------------------------------------------------------------------ class-name collisions across kinds
+def collision_docs():
+    """Documents in which two schemas of possibly different KINDS derive the same generated class name (all classes share one
+    table, Schemas.classes_by_name).  Every one must end in diagnostics, never in an exception.  list of (label, document)."""
+    R = REF
+    o = lambda **p: {"type": "object", "properties": p}
+    enum = lambda *v: {"type": "string", "enum": list(v)}
+    ienum = lambda *v: {"type": "integer", "enum": list(v)}
+
+    def doc(schemas, paths=None, params=None, version="3.1.0"):
+        comps = {"schemas": schemas}
+        if params:
+            comps["parameters"] = params
+        return {"openapi": version, "info": {"title": "t", "version": "1"}, "paths": paths or {}, "components": comps}
+
+    def rev(d):
+        return {k: d[k] for k in reversed(list(d))}
+    kinds = {
+        "model": lambda: o(x={"type": "string"}),
+        "model2": lambda: o(y={"type": "integer"}),
+        "enum": lambda: enum("a", "b"),
+        "enum-same": lambda: enum("a", "b"),
+        "enum-other": lambda: enum("c"),
+        "int-enum": lambda: ienum(1, 2),
+        "union": lambda: {"anyOf": [{"type": "string"}, {"type": "integer"}]},
+        "array": lambda: {"type": "array", "items": {"type": "string"}},
+        "scalar": lambda: {"type": "string"},
+        "allof": lambda: {"allOf": [{"$ref": R + "Base"}, o(z={"type": "string"})]},
+    }
+    out = []
+    # 1. component FooBar (kind A) vs inline property Foo.bar (kind B), both declaration orders
+    inline_kinds = ["model", "enum", "int-enum", "enum-other"]
+    for a in ["model", "enum", "enum-same", "int-enum", "union", "array", "allof"]:
+        for b in inline_kinds:
+            S = {"Base": o(id={"type": "integer"}), "FooBar": kinds[a](), "Foo": o(bar=kinds[b](), other={"type": "string"})}
+            out.append((f"collide:component-{a}:inline-{b}", doc(S)))
+            out.append((f"collide:inline-{b}:component-{a}", doc(rev(S))))
+    # 2. inline vs inline: Foo.bar_baz and FooBar.baz both derive FooBarBaz
+    for a in inline_kinds:
+        for b in inline_kinds:
+            S = {"Foo": o(bar_baz=kinds[a]()), "FooBar": o(baz=kinds[b]())}
+            out.append((f"collide:inline-{a}:inline-{b}", doc(S)))
+    # 3. component vs component whose names differ only in what pascal_case removes
+    for a in ["model", "enum", "int-enum"]:
+        for b in ["model", "enum", "enum-other"]:
+            S = {"foo_bar": kinds[a](), "FooBar": kinds[b](), "User": o(p={"$ref": R + "foo_bar"}, q={"$ref": R + "FooBar"})}
+            out.append((f"collide:component-{a}:component-{b}", doc(S)))
+    # 4. array items / union members / additionalProperties positions minting the colliding name
+    for b in inline_kinds:
+        out.append((f"collide:component-model:items-{b}", doc({"FooBarItem": kinds["model"](), "Foo": o(bar={"type": "array", "items": kinds[b]()})})))
+        out.append((f"collide:items-{b}:component-model", doc(rev({"FooBarItem": kinds["model"](), "Foo": o(bar={"type": "array", "items": kinds[b]()})}))))
+        out.append((f"collide:component-enum:items-{b}", doc({"FooBarItem": kinds["enum"](), "Foo": o(bar={"type": "array", "items": kinds[b]()})})))
+        out.append((f"collide:component-model:union-member-{b}", doc({"FooBarType0": kinds["model"](), "FooBarType1": kinds["enum"](),
+                                                                     "Foo": o(bar={"anyOf": [kinds[b](), kinds["model2"]() if b != "model" else kinds["enum"]()]})})))
+        out.append((f"collide:component-model:addl-{b}", doc({"FooAdditionalProperty": kinds["model"](), "Foo": {"type": "object", "additionalProperties": kinds[b]()}})))
+    # 5. parameters and bodies / responses: operation getFoo with query parameter bar mints GetFooBar; JSON body mints GetFooBody...
+    def op(param_schema, extra=None):
+        d = {"operationId": "getFoo", "parameters": [{"name": "bar", "in": "query", "schema": param_schema}], "responses": {"200": {"description": "ok"}}}
+        d.update(extra or {})
+        return {"/foo": {"post": d}}
+    for a in ["model", "enum", "enum-same", "int-enum"]:
+        for b in ["enum", "int-enum", "enum-other", "model"]:
+            out.append((f"collide:component-{a}:param-{b}", doc({"GetFooBar": kinds[a]()}, op(kinds[b]()))))
+        out.append((f"collide:component-{a}:body-inline", doc({"GetFooBody": kinds[a]()}, op({"type": "string"}, {"requestBody": {"content": {"application/json": {"schema": o(v=kinds["enum"]())}}}}))))
+        out.append((f"collide:component-{a}:response-inline", doc({"GetFooResponse200": kinds[a]()}, op({"type": "string"}, {"responses": {"200": {"description": "ok", "content": {"application/json": {"schema": o(v=kinds["enum"]())}}}}}))))
+        out.append((f"collide:component-{a}:component-param-enum", doc({"BarParam": kinds[a](), "Bar": kinds[a]()}, op({"type": "string"}), params={"Bar": {"name": "bar", "in": "query", "schema": enum("p", "q")}})))
+    # 6. title-driven names: an inline schema's title names another component
+    for a in ["model", "enum"]:
+        for b in ["model", "enum", "enum-other"]:
+            inner = kinds[b]()
+            inner["title"] = "Target"
+            out.append((f"collide:component-{a}:titled-{b}", doc({"Target": kinds[a](), "Holder": o(t=inner)})))
+            out.append((f"collide:titled-{b}:component-{a}", doc(rev({"Target": kinds[a](), "Holder": o(t=inner)}))))
+    return out
+
+
+def collide_mutation(doc, rng):
+    """add to a valid document a component whose class name collides with an inline class of another kind (or vice versa)"""
+    d = copy.deepcopy(doc)
+    schemas = ((d.get("components") or {}).get("schemas")) if isinstance(d.get("components"), dict) else None
+    if not isinstance(schemas, dict) or not schemas:
+        return "noop", d
+    cands = []
+    for n, s_ in schemas.items():
+        if isinstance(s_, dict) and isinstance(s_.get("properties"), dict):
+            for pn in s_["properties"]:
+                cands.append((n, pn))
+    if not cands:
+        return "noop", d
+    n, pn = rng.choice(cands)
+    kind_inline = rng.choice(["enum", "model", "int-enum"])
+    kind_comp = rng.choice(["model", "enum", "union"])
+    mk = {"enum": {"type": "string", "enum": ["k1", "k2"]}, "int-enum": {"type": "integer", "enum": [7, 8]},
+          "model": {"type": "object", "properties": {"kx": {"type": "string"}}}, "union": {"anyOf": [{"type": "string"}, {"type": "integer"}]}}
+    schemas[n]["properties"][pn] = copy.deepcopy(mk[kind_inline])
+    comp_name = rng.choice([f"{n}_{pn}", f"{n} {pn}", f"{n}{pn[:1].upper()}{pn[1:]}"])
+    new = {comp_name: copy.deepcopy(mk[kind_comp])}
+    if rng.random() < 0.5:
+        schemas.update(new)
+    else:
+        d["components"]["schemas"] = {**new, **schemas}
+    return f"collide:{kind_comp}-vs-inline-{kind_inline}", d
